@@ -33,6 +33,12 @@ CHECKS = {
          'Arbitrary bytes decoded into (flags, 64 tx variants, index, scriptSig, scriptPubKey) in five modes are run through VerifyScript/EvalScript; '
          'only ValidationError may escape, inputs and cached ids must be unchanged and captured error state must respect the limits; eight (16) '
          'campaigns from empty and seeded corpora; every truncation point of generated structured scripts.', TRUST),
+ 'C13': ('exploration', 'Hypothesis differential vs an independent pure-Python secp256k1 / strict-DER / Base58Check reference; exhaustive prefix-byte enumeration for public keys',
+         'Public-key derivation, WIF text and round trip on all four chains, strict-DER low-S validity of fresh library signatures, verify() on a '
+         'ten-class (r,s) matrix and is_fullyvalid on 14 malformed-key classes are compared with a reference written from the curve equation.', TRUST),
+ 'C14': ('exploration', 'Hypothesis-generated keys x messages; oracle = reference message digest, reference public-key recovery, and a negative address/message matrix',
+         'Digest layout, 65-byte header semantics, exact key recovery by an independent implementation, True for the own address and False for '
+         'twin / other-key / same-hash P2SH and P2WPKH addresses and four message perturbations.', TRUST),
  'C15': ('exploration', 'enumeration of every transaction count + Hypothesis witness/duplicate variants vs recursive reference merkle and weight formula',
          'Every n in 1..70 (1..300 thorough, powers of two +-1 to 1025) with generated witness subsets and duplicates is compared with a recursive '
          'textbook merkle definition over reference txids/wtxids; wrong declared roots must be refused; weights equal 3*stripped+full.', TRUST),
